@@ -78,7 +78,11 @@ Theorem C10_guarded_results : forall k g calls sched t, calls_ok calls ->
 Proof. exact guarded_results. Qed.
 Print Assumptions C10_guarded_results.
 
-(* (2a) no deadlock: while a call is outstanding some thread can take a step that changes the state *)
+(* (2a) no deadlock: while a call is outstanding some thread can take a step that changes the
+   state (can_step: it has a call to make and is not blocked in Lock() behind a held lock).
+   The machine's Unlock only frees the lock; who takes it next — the longest waiting
+   goroutine, the latest, a newcomer that never blocked — is the schedule's choice, and
+   the schedule is universally quantified: no lock-grant order is assumed *)
 Theorem C10_guarded_no_deadlock : forall k g calls sched, calls_ok calls ->
   all_done (run Guarded k g calls sched) = false ->
   exists t, (t < length calls)%nat /\ can_step (run Guarded k g calls sched) t /\
@@ -86,15 +90,50 @@ Theorem C10_guarded_no_deadlock : forall k g calls sched, calls_ok calls ->
 Proof. exact guarded_progress. Qed.
 Print Assumptions C10_guarded_no_deadlock.
 
-(* (2b) every fair schedule (rounds in each of which every thread is scheduled at least
-   once) of fuel_bound = B + (3 + B) * |calls| rounds, B = the sum over the universe of
-   (2*|refs|+3), completes every call, each with its solo result *)
+(* (2b) scheduler assumption, stated explicitly: WEAK FAIRNESS — the schedule is a sequence
+   of rounds in each of which every thread is scheduled at least once (weakly_fair).  Under
+   it, and under NO assumption on the lock-grant order, fuel_bound = B + (4 + B) * |calls|
+   rounds, B = the sum over the universe of (2*|refs|+3), complete every call, each with
+   its solo result.  (A single thread may lose the race for the lock again and again; as
+   every thread has finitely many calls, each round still retires at least one unit of
+   the global measure mu.) *)
 Theorem C10_guarded_fair_complete : forall k g calls rounds, calls_ok calls ->
-  Forall (covers (length calls)) rounds -> (fuel_bound g calls <= length rounds)%nat ->
+  weakly_fair (length calls) rounds -> (fuel_bound g calls <= length rounds)%nat ->
   all_done (run Guarded k g calls (concat rounds)) = true /\
   results (run Guarded k g calls (concat rounds)) = map (map (result_solo k g)) calls.
 Proof. exact guarded_fair_complete. Qed.
 Print Assumptions C10_guarded_fair_complete.
+
+(* (2c) mutexes that hand the lock over: under ANY grant policy gr (a function from the state
+   after an Unlock to the goroutine that is given the lock at once, or to nobody; fifo_grant
+   = first come first served is the policy the harness's forced schedules exhibit and the
+   correspondence evaluates) every run is a run of the machine above, on the schedule
+   [expand] computes — so results, absence of deadlock and completion under weak fairness
+   hold for every hand-off order as well *)
+Theorem C10_handoff_refines : forall (gr : grant_policy) d k g calls sched,
+  hrun gr d k g calls sched = run d k g calls (expand gr d k g sched (init calls)).
+Proof. exact handoff_refines. Qed.
+Print Assumptions C10_handoff_refines.
+
+Theorem C10_handoff_results : forall (gr : grant_policy) k g calls sched t, calls_ok calls ->
+  exists j, nth t (results (hrun gr Guarded k g calls sched)) [] =
+            map (result_solo k g) (firstn j (nth t calls [])).
+Proof. exact handoff_results. Qed.
+Print Assumptions C10_handoff_results.
+
+Theorem C10_handoff_no_deadlock : forall (gr : grant_policy) k g calls sched, calls_ok calls ->
+  all_done (hrun gr Guarded k g calls sched) = false ->
+  exists t, (t < length calls)%nat /\ can_step (hrun gr Guarded k g calls sched) t /\
+            gstep Guarded k g t (hrun gr Guarded k g calls sched) <> hrun gr Guarded k g calls sched.
+Proof. exact handoff_no_deadlock. Qed.
+Print Assumptions C10_handoff_no_deadlock.
+
+Theorem C10_handoff_fair_complete : forall (gr : grant_policy) k g calls rounds, calls_ok calls ->
+  weakly_fair (length calls) rounds -> (fuel_bound g calls <= length rounds)%nat ->
+  all_done (hrun gr Guarded k g calls (concat rounds)) = true /\
+  results (hrun gr Guarded k g calls (concat rounds)) = map (map (result_solo k g)) calls.
+Proof. exact handoff_fair_complete. Qed.
+Print Assumptions C10_handoff_fair_complete.
 
 (* (3) whenever the lock is free every cache entry is fully linked, denotes its type, and
    is a type that reflects: no placeholder with To == nil, and nothing that a failed call
@@ -123,7 +162,7 @@ Example C10_guarded_example :
   let g : graph := [(1, [2]); (2, [1; 3]); (3, []); (4, [3; 5; 1]); (5, [unsupported])] in
   let calls : list (list name) := [[1; 4]; [4; 2]; [3; 1]] in
   let rounds := repeat [2; 0; 1; 1]%nat (fuel_bound g calls) in
-  calls_ok calls /\ Forall (covers (length calls)) rounds /\ fuel_bound g calls = 242%nat /\
+  calls_ok calls /\ weakly_fair (length calls) rounds /\ fuel_bound g calls = 248%nat /\
   results (run Guarded 2 g calls (concat rounds)) =
     [[ROk (UNode 1 [UNode 2 [UCut 1; UCut 3]]); RErr];
      [RErr; ROk (UNode 2 [UNode 1 [UCut 2]; UNode 3 []])];
@@ -131,9 +170,18 @@ Example C10_guarded_example :
   (* after the failed call of thread 1 the cache holds nothing *)
   cmap (s_sh (run Guarded 2 g [[4]] (repeat 0%nat 20))) = [] /\
   (* a schedule on which thread 1 has to wait for the lock *)
-  snd (run_trace Guarded 2 g calls [0; 0; 1; 1; 2; 0]%nat) = [2; 3; 1; 1; 1; 4].
+  snd (run_trace Guarded 2 g calls [0; 0; 1; 1; 2; 0]%nat) = [2; 3; 1; 1; 1; 4] /\
+  (* lock-grant orders: threads 1 and 2 block behind thread 0 (1 first); when thread 0 returns,
+     the machine lets thread 2 (the later arrival) take the free lock, or thread 0 barge in
+     again with its next call while both still wait; first-come-first-served hand-off gives it to 1 *)
+  snd (run_trace Guarded 2 g calls [0; 1; 2; 0; 0; 0; 0; 0; 0; 0; 0; 0; 0; 2; 1]%nat) =
+    [2; 1; 1; 3; 4; 5; 4; 4; 5; 6; 6; 7; 0; 2; 1] /\
+  snd (run_trace Guarded 2 g calls [0; 1; 2; 0; 0; 0; 0; 0; 0; 0; 0; 0; 0; 0; 1; 2]%nat) =
+    [2; 1; 1; 3; 4; 5; 4; 4; 5; 6; 6; 7; 0; 2; 1; 1] /\
+  snd (hrun_trace fifo_grant Guarded 2 g calls [0; 1; 2; 0; 0; 0; 0; 0; 0; 0; 0; 0; 0; 2; 1]%nat) =
+    [2; 1; 1; 3; 4; 5; 4; 4; 5; 6; 6; 7; 0; 1; 3].
 Proof.
-  cbv zeta. split; [|split; [|split; [|split; [|split]]]]; try (vm_compute; reflexivity).
+  cbv zeta. split; [|split; [|split; [|split; [|split; [|split; [|split; [|split]]]]]]]; try (vm_compute; reflexivity).
   - intros t n Hin. destruct t as [|[|[|t]]]; cbn in Hin.
     + destruct Hin as [<-|[<-|[]]]; discriminate.
     + destruct Hin as [<-|[<-|[]]]; discriminate.
